@@ -8,6 +8,8 @@ func init() {
 		Fixtures:    []string{"dec"},
 		Run:         runC16,
 		SelfTest: []Mutation{
+			{Name: "the empty-element skip loop forgets to advance", File: "fileformats/ply.go",
+				Old: "\t\tp.curElementRead = 0\n\t\tp.curElement++\n\t}\n\tcurElem", New: "\t\tp.curElementRead = 0\n\t}\n\tcurElem", Rule: "DL", Expect: "PLYReader"},
 			{Name: "readColorPLY tests only EOF (defect F6)", File: "model3d/import.go",
 				Old: "\t\t} else if err != nil {\n\t\t\treturn nil, nil, err\n\t\t}\n\t\tif element.Name == \"face\" {", New: "\t\t}\n\t\tif element.Name == \"face\" {", Rule: "DE", Expect: "readColorPLY"},
 			{Name: "negative vertex index accepted (defect F7)", File: "model3d/import.go",
